@@ -544,6 +544,7 @@ func (p *parser) parsePrimary() (Expr, error) {
 // ---------------------------------------------------------------- contracts
 
 type Clause struct {
+	OnlyProps []string // when set: obligations of this clause are generated only for these properties
 	Kind string // requires ensures modifies invariant decreases
 	Loop int
 	Src  string
@@ -789,17 +790,23 @@ func (ss *SpecSet) parseFile(path, pkg string) error {
 				return fail(fmt.Errorf("clause outside func block"))
 			}
 			name := ""
+			var only []string
 			if strings.HasPrefix(rest, "[") {
 				if k := strings.Index(rest, "]"); k > 0 {
 					name = rest[1:k]
 					rest = strings.TrimSpace(rest[k+1:])
+					// [label @C06,C07]: the clause belongs to these properties only
+					if a := strings.Index(name, "@"); a >= 0 {
+						only = strings.Split(strings.TrimSpace(name[a+1:]), ",")
+						name = strings.TrimSpace(name[:a])
+					}
 				}
 			}
 			e, err := parseExpr(rest)
 			if err != nil {
 				return fail(err)
 			}
-			c := &Clause{Kind: kw, Src: rest, E: e, Line: where, Name: name, Pkg: pkg}
+			c := &Clause{Kind: kw, Src: rest, E: e, Line: where, Name: name, Pkg: pkg, OnlyProps: only}
 			if kw == "requires" {
 				cur.Requires = append(cur.Requires, c)
 			} else {
